@@ -164,6 +164,15 @@ pub fn replay(o: &Opts) -> Res<()> {
         // ---- C03: ids ----
         if let (Some(ids), Val::Transaction(tx)) = (exp["ids"].as_array(), &val) {
             let chains = ln["chains"].as_array().expect("chains");
+            // one object carried through all chain ids (metadata of the previous chain id is present at each precompute)
+            let mut carried = tx.clone();
+            for (c, eid) in chains.iter().zip(ids.iter()) {
+                if let Ok(true) = precompute(&mut carried, &chain(c.as_str().unwrap())) {
+                    rep.ck("cached-id-carried");
+                    let eid = eid.as_str().unwrap();
+                    if cached_id_of(&carried).as_deref() != Some(eid) { rep.mism(li, ln, "cached-id-carried", &ln["path"].to_string(), json!(eid), json!(cached_id_of(&carried))); }
+                }
+            }
             for (c, eid) in chains.iter().zip(ids.iter()) {
                 let ch = chain(c.as_str().unwrap());
                 let eid = eid.as_str().unwrap();
